@@ -97,7 +97,7 @@ def place(ctx, em, tree, desc=None, kind=None):
     """TTNO of the model's terms on the tree plus the dense bookkeeping."""
     from renormalizer.tn import TTNO
     tm = TreeModel()
-    tm.em, tm.tree, tm.desc, tm.kind = em, tree, desc, kind
+    tm.em, tm.tree, tm.desc, tm.kind, tm.aux = em, tree, desc, kind, None
     tm.phys = physical(em.gm.basis)
     tm.dims = [b.nbas for b in tm.phys]
     tm.dim = int(np.prod(tm.dims))
@@ -289,5 +289,9 @@ def guarded_evolve(ctx, tm, s, ttno, tau, normalize, what, scheme):
                 if np.linalg.norm(v) <= 1e-13 * scale:
                     ctx.violate("evolve|pc|state-annihilated-by-a-power-of-H|crash", scheme=what, where=where, message=msg)
                     raise CaseAbort() from e
-        ctx.violate(f"{what}|crash|{type(e).__name__}@{where}", message=msg, traceback=traceback.format_exc()[-1500:])
+        # mechanism-level signature: scheme, exception type, innermost repository frame, and the quantum-number arity
+        # (several code paths size arrays by the number of label components)
+        tag = "|two-component-qn" if tm is not None and getattr(tm, "em", None) is not None and tm.em.gm.qn_size > 1 else ""
+        ctx.violate(f"evolve|{scheme}|crash|{type(e).__name__}@{where}{tag}", message=msg, call=what,
+                    traceback=traceback.format_exc()[-1500:])
         raise CaseAbort() from e
